@@ -8,6 +8,8 @@ structure Res where
   monitor : Option String := none
   /-- property the monitor belongs to -/
   prop : String := ""
+  /-- further monitor verdicts `(property, reason)` for components that serve several properties -/
+  more : List (String × String) := []
   deriving Inhabited
 
 def bad (why : String) : Res := { model := "bad-op " ++ why }
